@@ -833,7 +833,11 @@ func (e *Engine) rowTable(g *ssa.Global) *Lit {
 			elem = u.Elem()
 		}
 		if elem != nil {
-			if _, isStruct := elem.Underlying().(*types.Struct); isStruct {
+			_, isStruct := elem.Underlying().(*types.Struct)
+			if b, isB := elem.Underlying().(*types.Basic); isB && b.Info()&types.IsString != 0 {
+				isStruct = true // a list of constant strings (var literals = []string{"true", "false", "null"}): rows of one cell
+			}
+			if isStruct {
 				if pk := e.prog.ByPath[g.Pkg.Pkg.Path()]; pk != nil {
 					if l, err := evalGlobal(pk, g.Name()); err == nil && l != nil && len(l.Elems) > 0 && len(l.Elems) <= 64 {
 						out = l
